@@ -143,6 +143,13 @@ func (fv *FV) assume(st *State, f string) {
 	fv.sess.fact(implies(st.pc, f))
 }
 
+func (fv *FV) assumeHint(st *State, sym, f string) {
+	if fv.pure > 0 {
+		return
+	}
+	fv.sess.hint(sym, implies(st.pc, f))
+}
+
 // name introduces a definitional constant for a term when it is large.
 func (fv *FV) name(prefix string, v Val) Val {
 	if fv.pure > 0 || len(v.T) < 120 {
@@ -207,6 +214,9 @@ func (fv *FV) typeInv(term string, t types.Type, depth int) string {
 			}
 		}
 		if _, ok := tt.Underlying().(*types.Struct); ok {
+			if !strings.HasPrefix(fv.sess.sortOf(tt), "St_") {
+				return "true" // library type mapped to a primitive sort
+			}
 			return fv.structInv(term, tt, depth)
 		}
 		return fv.typeInv(term, tt.Underlying(), depth)
@@ -1016,10 +1026,20 @@ type modSet struct {
 	vars    map[types.Object]bool
 	heap    map[string]bool
 	heapAll bool
+	// bases: for a heap key, the base expressions (simple identifiers) whose
+	// objects are written; absent or containing nil = any object
+	bases map[string][]*ast.Ident
+}
+
+func (ms *modSet) addBase(key string, id *ast.Ident) {
+	if ms.bases == nil {
+		ms.bases = map[string][]*ast.Ident{}
+	}
+	ms.bases[key] = append(ms.bases[key], id)
 }
 
 func (fv *FV) modifies(n ast.Node) *modSet {
-	ms := &modSet{vars: map[types.Object]bool{}, heap: map[string]bool{}}
+	ms := &modSet{vars: map[types.Object]bool{}, heap: map[string]bool{}, bases: map[string][]*ast.Ident{}}
 	fv.collectMods(n, ms, 0)
 	return ms
 }
@@ -1059,7 +1079,14 @@ func (fv *FV) heapKeysOfLhs(e ast.Expr, ms *modSet) {
 			// find the first pointer hop on the path
 			keys := fv.selectionHeapKeys(sel)
 			if len(keys) > 0 {
-				ms.heap[keys[len(keys)-1]] = true
+				k := keys[len(keys)-1]
+				ms.heap[k] = true
+				// base identifier known? (x.f with x a plain identifier and a single pointer hop)
+				if id, ok := unparen(x.X).(*ast.Ident); ok && len(keys) == 1 && isPointer(sel.Recv()) {
+					ms.addBase(k, id)
+				} else {
+					ms.addBase(k, nil)
+				}
 				return
 			}
 		}
@@ -1177,7 +1204,55 @@ func (fv *FV) havocMods(st *State, ms *modSet, what string) {
 		return
 	}
 	for _, k := range sortedKeys(ms.heap) {
-		fv.havocHeapKey(st, k)
+		bases, ok := ms.bases[k]
+		precise := ok && len(bases) > 0
+		var refs []string
+		for _, id := range bases {
+			if id == nil {
+				precise = false
+				break
+			}
+			obj := fv.info().Uses[id]
+			if obj == nil || ms.vars[obj] {
+				precise = false
+				break
+			}
+			v, has := st.vars[obj]
+			if !has {
+				precise = false
+				break
+			}
+			refs = append(refs, v.T)
+		}
+		if !precise {
+			fv.havocHeapKey(st, k)
+			continue
+		}
+		// only the named objects' cells change
+		cur, okc := st.heap[k]
+		if !okc {
+			cur = fv.heapInit(k, Val{})
+			if cur.S == "" {
+				continue
+			}
+		}
+		es := strings.TrimSuffix(strings.TrimPrefix(cur.S, "(Array Int "), ")")
+		t := cur.T
+		seen := map[string]bool{}
+		for _, r := range refs {
+			if seen[r] {
+				continue
+			}
+			seen[r] = true
+			nv := fv.sess.fresh("hv", es)
+			if hv, okh := fv.w.heapSorts[k]; okh && hv.Go != nil {
+				if inv := fv.typeInv(nv, hv.Go, 1); inv != "true" {
+					fv.sess.fact(inv)
+				}
+			}
+			t = fmt.Sprintf("(store %s %s %s)", t, r, nv)
+		}
+		st.heap[k] = fv.name("H", Val{T: t, S: cur.S, Go: cur.Go})
 	}
 }
 
